@@ -140,3 +140,24 @@ def from_semver_shapes(tier):
     for n in range(1, k + 1):
         out += [tuple(x) for x in itertools.product(menu, repeat=n)]
     return out
+
+
+def path_custom_value(ctx, arg):
+    """ZervVars::get_custom_value on nested JSON (objects, arrays, scalars) with a symbolic dotted key"""
+    I, w = ctx.I, ctx.w
+    from models_json import jobj, jstr, jnum, jbool, jnull
+    n = arg
+    custom = jobj([(mkstring('a'), Adt('Value', 4, [VecObj([jstr([120]), jnum(7)])])),
+                   (mkstring('b'), jobj([(mkstring('c'), jstr([121])), (mkstring('0'), jbool(True))])),
+                   (mkstring('s'), jstr([122])), (mkstring('n'), jnull())])
+    sv = c06.SymVars(w, I, set(), {})
+    vars_ = sv.value(I)
+    vars_.fields[c06.FIELDS.index('custom')] = custom
+    key = [w.fresh_int('k%d' % i) for i in range(n)]
+    for c in key:
+        w.assume(z3.Or([c == ord(x) for x in 'abcsn.0129x']))
+    try:
+        I.call('ZervVars::get_custom_value', [ValPtr(vars_), Str(key)])
+        ctx.tag('returned')
+    except Panic as e:
+        ctx.violation(clause='panic', site='get_custom_value', value=mv(w.get_model(), key), detail=str(e), vkey='panic|get_custom_value')
